@@ -718,3 +718,18 @@ func actualIn(f *ssa.Function, v ssa.Value) ssa.Value {
 	}
 	return v
 }
+
+// changeLoopHost returns the function that holds the change loop of pipeline
+// f (the one calling Change.Match): f itself, or the private helper of f's
+// group it was moved to.
+func changeLoopHost(r *an.Run, f *ssa.Function) *ssa.Function {
+	m := r.P.Func(engine, "Change.Match")
+	for _, g := range helperGroup(f, 2) {
+		for _, c := range an.Calls(g) {
+			if m != nil && an.StaticCallee(c) == m {
+				return g
+			}
+		}
+	}
+	return f
+}
